@@ -116,6 +116,52 @@ def chanlife_part(ctx, own_prefixes, depth, known_key_fn=None):
             "steps_compared": sum(len(x["ops"]) for x in res), "verdict_histogram": hist}
 
 
+def chanfile_error_part(ctx, rng):
+    """C07 through makefile("r") on a real popen gateway: remote code sends text items and then raises; the file is read in pieces,
+    then waitclose() and receive() are called on the channel; TLC requires exactly one RemoteError among all these calls"""
+    import execnet
+
+    gw = execnet.makegateway("popen")
+    cases = []
+    try:
+        for i in range(12 if ctx.quick else 120):
+            items = ["".join(rng.choice("ab\n") for _ in range(rng.randint(1, 4))) for _ in range(rng.randint(1, 4))]
+            ch = gw.remote_exec("for x in channel.receive(): channel.send(x)\nraise ValueError('boom')")
+            ch.send(items)
+            f = ch.makefile("r")
+            outs = []
+            calls = [("read", rng.randint(1, 4)) for _ in range(rng.randint(1, 5))] + [("read", 50), ("readline",), ("waitclose",), ("receive",)]
+            for c in calls:
+                try:
+                    if c[0] == "read":
+                        outs.append(["data", [ord(x) for x in f.read(c[1])]])
+                    elif c[0] == "readline":
+                        outs.append(["data", [ord(x) for x in f.readline()]])
+                    elif c[0] == "waitclose":
+                        ch.waitclose(10)
+                        outs.append(["ok", []])
+                    else:
+                        ch.receive(10)
+                        outs.append(["item", []])
+                except ch.RemoteError:
+                    outs.append(["RemoteError", []])
+                except EOFError:
+                    outs.append(["EOFError", []])
+                except Exception as e:  # noqa: BLE001
+                    outs.append([type(e).__name__, []])
+            cases.append({"sent": [ord(x) for x in "".join(items)], "outcomes": outs, "calls": [list(c) for c in calls]})
+    finally:
+        gw.exit()
+        execnet.default_group.terminate(timeout=3)
+    verdicts = batch.judge("ChanFileErrCases", [{"sent": c["sent"], "outcomes": c["outcomes"]} for c in cases], ctx.scratch)
+    hist = {}
+    for c, vd in zip(cases, verdicts):
+        hist[vd] = hist.get(vd, 0) + 1
+        if vd != "ok":
+            ctx.violation(f"{vd}: {json.dumps(c)[:400]}", c)
+    return {"cases": len(cases), "verdict_histogram": hist}
+
+
 def chanids_inductive(ctx):
     """unbounded safety of id allocation: Apalache discharges the inductive invariant of spec/apalache/ChanIdsInd.tla
     (Init => IndInv; IndInv /\\ Next => IndInv'; IdsDistinct and Parity are conjuncts), with a non-vacuity probe"""
